@@ -121,8 +121,8 @@ Proof.
     pose proof (justified_sound X A (asz_of f) HX HE F i i' c c1 HF Hwf Hc H1) as R.
     cbn [exec]. destruct (step X i c) as [c2|s c2|op a v] eqn:E; destruct (step X i' c1) as [c2'|s' c2'|op' a' v'] eqn:E';
       cbn [sres_rel] in R; try contradiction.
-    + apply (IH t' (facts_step true F (asz_of f) i) c2 c2' H3); [| |exact R].
-      * apply (facts_step_sound X A (asz_of f) HX HE F i c c2 HF Hwf). left. exact E.
+    + apply (IH t' (next_facts true F (asz_of f) i i') c2 c2' H3); [| |exact R].
+      * exact (next_facts_sound X A (asz_of f) HX HE F i i' c c2 HF Hwf E).
       * destruct (step_post X i c c2 (or_introl E)) as [_ [_ W]]. apply W. exact Hwf.
     + destruct R as [-> R]. split; [reflexivity|]. split; [exact R|].
       pose proof (jump_state X i c s' c2 E) as ->. cbn [cs cv]. split; [exact Hwf|].
